@@ -49,6 +49,10 @@ CHECKS = {
    text="Child processes over the complete grid of 16 clone entry points x the 10 listed starting counts x {std, no_std}, plus generated boundary-biased counts; the counter's address is learnt through the shim and preset; termination signal and output decide.",
    note="Trusted: presetting the count word is equivalent to having forgotten that many handles; SIGABRT/SIGILL both count as abort; at exactly isize::MAX either clean outcome is accepted (the code documents the abort as 'not necessarily at exactly MAX_REFCOUNT + 1').",
    technique="enumerated + generated child-process fault tests with a termination-status oracle (proptest)"),
+ "C14": dict(engine="cmp", category="exploration", design="5 (C14), 6",
+   text="Exhaustive enumeration of all ordered pairs from the small domain (headers x slices of length <=3; u8, f32 with NaN and -0.0, an Eq-only type) across 13 handle/payload kinds, same and distinct allocations, equal and unequal recorded lengths, plus random larger values; differential oracle against the plain values for every comparison operator, coherence among the operators, a recording Hasher, formatting and map lookups through Borrow.",
+   note="Trusted: Rust's tuple/slice comparison on plain values as the reference. Two genuine defects found by this check were repaired in /repo (see KNOWN_FINDINGS.txt, 'fixed:' lines).",
+   technique="exhaustive small-domain enumeration + random differential testing against plain values (proptest)"),
 }
 NOT_YET = {
 }
@@ -83,6 +87,7 @@ m = {
    {"name": "sched", "path": "harness/hist/src/sched.rs + harness/rt/src/sim.rs", "serves_properties": ["C02", "C03", "C08", "C09"], "kind_free_text": "schedule engine: generated thread programs under a harness-owned scheduler, operational memory model with stale loads, vector-clock race oracle"},
    {"name": "hist-thin", "path": "harness/hist/src/hist_thin.rs", "serves_properties": ["C10", "C01", "C03", "C04"], "kind_free_text": "model-based history engine for the thin world (ThinArc and its fat views)"},
    {"name": "c16-children", "path": "harness/eng/src/c16.rs", "serves_properties": ["C16"], "kind_free_text": "child-process outcome engine"},
+   {"name": "cmp", "path": "harness/eng/src/cmp.rs", "serves_properties": ["C14"], "kind_free_text": "comparison/hash/format differential engine, exhaustive over a small domain + random"},
    {"name": "matrix", "path": "harness/mx/src/lib.rs", "serves_properties": ["C05", "C11", "C12"], "kind_free_text": "static shape matrix engine with an allocator-level observed oracle"},
    {"name": "hist", "path": "harness/hist/src/hist_sized.rs", "serves_properties": ["C01", "C03", "C04", "C08", "C09"], "kind_free_text": "model-based history engine (proptest-generated op sequences, reference model, tracking allocator, identity-tracked payloads)"},
  ],
